@@ -9,6 +9,7 @@ import Gzx.Gen.QRVersion
 import Gzx.Gen.C05Format
 import Gzx.Gen.C15ECI
 import Gzx.Gen.C01Mode
+import Gzx.Gen.QRMask
 namespace Gzx.QRTables
 open Gzx Gzx.QRDec
 
